@@ -514,6 +514,13 @@ pub fn unmanaged_bounds_race(prop: &'static str, seed: u64) -> RaceOut {
                     Ok(Err(e)) => return Err(e),
                     Err(p) => return Err(format!("call_panicked: {}", vh_common::panic_message(&*p))),
                 }
+                if i % 4 == 0 {
+                    let st = pool.status();
+                    let big = 1usize << 40;
+                    if st.size >= big || st.available >= big || st.waiting >= big {
+                        return Err(format!("status_wrapped: status() reports a wrapped counter: {:?}", st));
+                    }
+                }
             }
             Ok(())
         }));
@@ -526,9 +533,13 @@ pub fn unmanaged_bounds_race(prop: &'static str, seed: u64) -> RaceOut {
                 if pool.is_closed() {
                     return Err("is_closed_true: is_closed() is true on a pool that was never closed".into());
                 }
-                // status() reads its counters one after the other: nothing can be demanded of it mid-flight,
-                // it only must not disturb the callers
-                let _ = pool.status();
+                // status() reads its counters one after the other: mid-flight only "no counter wraps around"
+                // can be demanded of it (and it must not disturb the callers)
+                let st = pool.status();
+                let big = 1usize << 40;
+                if st.size >= big || st.available >= big || st.waiting >= big || st.max_size >= big {
+                    return Err(format!("status_wrapped: status() reports a wrapped counter: {:?}", st));
+                }
                 k += 1;
             }
             Ok(k)
@@ -545,6 +556,7 @@ pub fn unmanaged_bounds_race(prop: &'static str, seed: u64) -> RaceOut {
             Some(("call_panicked", m)) => ("call_panicked", m.to_string()),
             Some(("is_closed_true", m)) => ("is_closed_true", m.to_string()),
             Some(("status_implausible", m)) => ("status_implausible", m.to_string()),
+            Some(("status_wrapped", m)) => ("status_wrapped", m.to_string()),
             _ => ("race_call_failed", e.clone()),
         };
         viol.push(Violation { prop, oracle, msg });
